@@ -139,7 +139,8 @@ struct Known {
 }
 
 fn load_known() -> Known {
-    let path = verif_root().join("known_findings.json");
+    // VERIF_KNOWN_FILE: development aid (triage with some findings closed); registered commands never set it
+    let path = std::env::var("VERIF_KNOWN_FILE").map(std::path::PathBuf::from).unwrap_or_else(|_| verif_root().join("known_findings.json"));
     let mut open = Vec::new();
     if let Ok(text) = std::fs::read_to_string(path) {
         if let Ok(v) = serde_json::from_str::<Value>(&text) {
